@@ -252,4 +252,13 @@ Section Bip32.
                else Err ValueE) ;;
     idxs <- path_tree path ;;
     derive_steps public testnet idxs xkey.
+
+  (* __main__.py, subcommand `hd <path> [--xpub] [--dump] [-P]`: derive, then convert (--xpub), then describe the key
+     that is emitted (--dump: the fields of deserialized_extended_key(derived_key, return_dict=True), to stderr),
+     then append the newline (-P).  Result: (stdout bytes, dumped fields) *)
+  Definition cli_hd (path xkey : bytes) (xpub dump print : bool) : result (bytes * option fields) :=
+    y <- derive_from_path path xkey ;;
+    y' <- (if xpub then get_xpub y else Ok y) ;;
+    d <- (if dump then f <- deserialized_extended_key y' ;; Ok (Some f) else Ok None) ;;
+    Ok (if print then y' ++ [x0a] else y', d).
 End Bip32.
